@@ -98,19 +98,31 @@ def cmd_check(args):
     known_lines = []
     notes = []
 
-    def confirm_and_record(engine, path, what):
+    def confirm_and_record(engine, path, what, eprop=None):
         """replay 3x in fresh processes; record a violation only if it reproduces each time"""
+        eprop = eprop or pid
         okc = 0
         last = ""
         for _ in range(3):
-            rc, out = replay_case(bins[engine], pid, path, known_ids)
+            rc, out = replay_case(bins[engine], eprop, path, known_ids)
             last = out
             if rc == 1 or rc < 0 or rc > 4 or "ERROR: AddressSanitizer" in out or "runtime error:" in out:
                 okc += 1
         if okc == 3:
             h = hashlib.sha1(open(path, "rb").read()).hexdigest()[:12]
             dst = os.path.join(viol_dir, "%s_%s%s" % (pid, h, os.path.splitext(path)[1]))
-            shutil.copyfile(path, dst)
+            if path.endswith(".json"):
+                try:
+                    dj = json.load(open(path))
+                    dj["engine"] = engine
+                    dj["prop"] = eprop
+                    dj["check"] = pid
+                    json.dump(dj, open(dst, "w"))
+                except Exception:
+                    shutil.copyfile(path, dst)
+            else:
+                shutil.copyfile(path, dst)
+                json.dump({"engine": engine, "prop": eprop, "check": pid}, open(dst + ".meta.json", "w"))
             violations.append((what, dst, last[-1500:]))
         else:
             notes.append("FLAKY-NOT-REPORTED %s (%d/3 reproductions)" % (path, okc))
@@ -125,9 +137,16 @@ def cmd_check(args):
                 continue
             path = os.path.join(cdir, fn)
             eng = default_engine
+            eprop = pid
             try:
                 if fn.endswith(".json"):
-                    eng = json.load(open(path)).get("engine", default_engine)
+                    dj = json.load(open(path))
+                    eng = dj.get("engine", default_engine)
+                    eprop = dj.get("prop", pid)
+                elif os.path.exists(path + ".meta.json"):
+                    dj = json.load(open(path + ".meta.json"))
+                    eng = dj.get("engine", default_engine)
+                    eprop = dj.get("prop", pid)
             except Exception:
                 pass
             if eng not in bins:
@@ -136,13 +155,15 @@ def cmd_check(args):
                     print("HARNESS-BUILD-FAILED engine=%s" % eng)
                     return 2
                 bins[eng] = bp
-            rc, out = replay_case(bins[eng], pid, path, known_ids)
+            rc, out = replay_case(bins[eng], eprop, path, known_ids)
             replayed += 1
             if rc == 0 or rc == 3 or rc == 4:
                 continue
-            confirm_and_record(eng, path, "regression case fails: " + out.strip().splitlines()[0] if out.strip() else "regression case fails")
+            confirm_and_record(eng, path, "regression case fails: " + (out.strip().splitlines()[0] if out.strip() else ""), eprop)
     for f in known_for:
         for w in f.get("witnesses", []):
+            if "for" in w and pid not in w["for"]:
+                continue
             path = os.path.join(ROOT, w["file"])
             eng = w.get("engine", default_engine)
             if eng not in bins:
@@ -208,7 +229,7 @@ def cmd_check(args):
                 keep = os.path.join(work, "crash_j%d_w%d.bin" % (ji, w))
                 shutil.copyfile(cur, keep)
                 head = [l for l in log.splitlines() if "ERROR" in l or "runtime error" in l or "SUMMARY" in l]
-                confirm_and_record(j["engine"], keep, "engine aborted: " + (head[0] if head else "exit %d" % rc))
+                confirm_and_record(j["engine"], keep, "engine aborted: " + (head[0][:300] if head else "exit %d" % rc), j.get("prop", pid))
             else:
                 print("HARNESS-ERROR worker produced no summary and no current case; rc=%d" % rc)
                 print(log[-3000:])
@@ -228,7 +249,7 @@ def cmd_check(args):
                 a.frombytes(f.read())
             hashes.update(a)
         for v in summ.get("violations", []):
-            confirm_and_record(j["engine"], v["case"], v["what"])
+            confirm_and_record(j["engine"], v["case"], v["what"], j.get("prop", pid))
         if summ.get("error"):
             print("HARNESS-ERROR", summ["error"])
             return 2
@@ -283,21 +304,33 @@ def cmd_replay(args):
     path = args.file
     pid = args.prop
     eng = args.engine
+    eprop = None
+    meta = None
     if path.endswith(".json"):
-        d = json.load(open(path))
-        pid = pid or d.get("prop")
-        eng = eng or d.get("engine")
+        meta = json.load(open(path))
+    elif os.path.exists(path + ".meta.json"):
+        meta = json.load(open(path + ".meta.json"))
+    if meta:
+        eprop = meta.get("prop")
+        eng = eng or meta.get("engine")
+        pid = pid or meta.get("check")
     if not pid:
         pid = os.path.basename(path).split("_")[0]
-    spec = PROPS.PROPS[pid]
-    eng = eng or spec["jobs"][0]["engine"]
+    eprop = eprop or pid
+    if not eng:
+        # find the engine that serves this engine-level property name
+        for cid, spec in PROPS.PROPS.items():
+            for j in spec.get("jobs", []):
+                if j.get("prop", cid) == eprop:
+                    eng = j["engine"]
+        eng = eng or PROPS.PROPS[pid]["jobs"][0]["engine"]
     ok, bp, log = BUILD.ensure(eng, REPO)
     if not ok:
         print("HARNESS-BUILD-FAILED")
         print(log[-4000:])
         return 2
-    rc, out = replay_case(bp, pid, path, [])
-    print(out)
+    rc, out = replay_case(bp, eprop, path, [])
+    print(out[:6000])
     return 1 if rc not in (0, 3, 4) else 0
 
 
